@@ -235,8 +235,10 @@ Proof.
   - destruct (ratio_ok w (thr (S i)) frac); [now exists (S i)|exact IH].
 Qed.
 
-(** contract of the whole routine *)
+(** contract of the whole routine: whenever some grid index meets the request (always, under the hypotheses of
+    trim_index_terminates), the result is the upper set at the largest such index *)
 Theorem trim_weights_contract {A} (samples : list A) weights thr frac bins s wt k :
+  trim_index (normalise weights) thr frac (bins - 1) <> None ->
   trim_weights samples weights thr frac bins = Some (s, wt, k) ->
   let w := normalise weights in
   (k <= bins - 1)%nat
@@ -247,12 +249,28 @@ Theorem trim_weights_contract {A} (samples : list A) weights thr frac bins s wt 
   /\ (forall j, (k < j <= bins - 1)%nat -> ratio_ok w (thr j) frac = false)
   /\ (~ sumQ (select (mask_at w (thr k)) w) == 0 -> sumQ wt == 1).
 Proof.
-  unfold trim_weights, trim_core. intro H. cbv zeta in *. set (w := normalise weights) in *.
-  destruct (trim_index w thr frac (bins - 1)) as [i|] eqn:E; [|discriminate].
+  unfold trim_weights, trim_core, trim_stop. intros Hsome H. cbv zeta in *. set (w := normalise weights) in *.
+  destruct (trim_index w thr frac (bins - 1)) as [i|] eqn:E; [|congruence].
   inversion H; subst s wt k. destruct (trim_index_spec _ _ _ _ _ E) as (H1 & H2 & H3).
   split; [exact H1|]. split; [reflexivity|]. split; [reflexivity|].
   split; [intros x Hx; now apply select_in_iff in Hx|].
   split; [unfold ratio_ok in H2; now apply Qle_bool_iff in H2|].
   split; [exact H3|].
   intro Hne. unfold trimmed_at. apply normalise_sum. exact Hne.
+Qed.
+
+(** the routine returns for EVERY threshold oracle, fraction and grid; when no grid index meets the request it stops at index 0, with
+    the samples at or above the lowest threshold, samples and weights still selected by one mask *)
+Theorem trim_weights_total {A} (samples : list A) weights thr frac bins :
+  exists s wt k, trim_weights samples weights thr frac bins = Some (s, wt, k)
+    /\ (k <= bins - 1)%nat
+    /\ s = select (mask_at (normalise weights) (thr k)) samples
+    /\ wt = normalise (select (mask_at (normalise weights) (thr k)) (normalise weights))
+    /\ (trim_index (normalise weights) thr frac (bins - 1) = None -> k = 0%nat).
+Proof.
+  unfold trim_weights, trim_core, trim_stop. cbv zeta. set (w := normalise weights).
+  destruct (trim_index w thr frac (bins - 1)) as [i|] eqn:E.
+  - do 3 eexists. split; [reflexivity|]. destruct (trim_index_spec _ _ _ _ _ E) as (H1 & _).
+    repeat split; try reflexivity; [exact H1|discriminate].
+  - do 3 eexists. split; [reflexivity|]. repeat split; try reflexivity. lia.
 Qed.
